@@ -359,6 +359,10 @@ func init() {
 		ex.cryptoEvent(fr, st, "ConstantTimeCompare", c)
 		r := ex.fresh("ctcmp", sBool)
 		ex.ghostVars["ctcmp_ok"] = boolVal(r)
+		ex.ctcmpN++
+		ex.ghostVars[fmt.Sprintf("ctcmp_ok_%d", ex.ctcmpN)] = boolVal(r)
+		// equal contents compare equal: the same memory region in particular
+		ex.assume("true", implies(and(eq(a.L[0], b.L[0]), eq(a.L[1], b.L[1]), eq(a.L[2], b.L[2])), r))
 		ex.assume("true", implies(r, eq(a.L[2], b.L[2])))
 		return intVal(ite(r, bvLit(1, 64), bvLit(0, 64)))
 	}
@@ -594,7 +598,7 @@ func init() {
 		base := ex.newRef(st, "encoded")
 		ex.havocMemBase(st, types.Typ[types.Uint8], base)
 		ln := ex.fresh("enclen", bv64)
-		ex.assume("true", and(nonNeg(ln), app("bvult", ln, "#x0000000010000000")))
+		ex.assume("true", and(nonNeg(ln), app("bvult", ln, "#x0000000000100000")))
 		isErr := ex.fresh("fails.encode", sBool)
 		e := ex.freshErr(st, "encode")
 		return tup(Val{T: c.results().At(0).Type(), L: []string{ite(isErr, "0", base), bvLit(0, 64), ite(isErr, bvLit(0, 64), ln), ite(isErr, bvLit(0, 64), ln)}},
